@@ -1438,6 +1438,9 @@ class QueryBuilder(Selectable, Term):  # type:ignore[misc]
         has_reference_to_foreign_table = self._foreign_table
         has_update_from = self._update_table and self._from
 
+        # "subquery" and "with_alias" say how this query as a whole is embedded (brackets, alias); its own clauses
+        # start afresh: no alias printing outside the defining clauses, nested queries always in brackets
+        outer_ctx = ctx
         ctx = ctx.copy(
             with_namespace=any(
                 [
@@ -1447,7 +1450,9 @@ class QueryBuilder(Selectable, Term):  # type:ignore[misc]
                     has_reference_to_foreign_table,
                     has_update_from,
                 ]
-            )
+            ),
+            with_alias=False,
+            subquery=True,
         )
 
         if self._update_table:
@@ -1542,12 +1547,12 @@ class QueryBuilder(Selectable, Term):  # type:ignore[misc]
         if self._for_update:
             querystring += self._for_update_sql(ctx)
 
-        if ctx.subquery:
+        if outer_ctx.subquery:
             querystring = "({query})".format(query=querystring)
         if self._on_conflict:
             querystring += self._on_conflict_sql(ctx)
             querystring += self._on_conflict_action_sql(ctx)
-        if ctx.with_alias:
+        if outer_ctx.with_alias:
             return format_alias_sql(querystring, self.alias, ctx)
 
         return querystring
